@@ -241,6 +241,29 @@ func runC18(c *runCtx) error {
 			}
 		}
 	}
+	// long conjunctions: the pinning conjunct in front of / behind / inside a chain of 16, 17, 20, 40 opaque
+	// conjuncts (a left-deep tree as deep as the chain is long), and two pinning conjuncts at its two ends
+	chain := func(k int, skip int) string {
+		var parts []string
+		for i := 0; i < k; i++ {
+			parts = append(parts, opaque[(i+skip)%len(opaque)])
+		}
+		return strings.Join(parts, " & ")
+	}
+	for ai, a := range atoms {
+		if !c.thorough() && ai%3 != int(c.seed%3) {
+			continue
+		}
+		for ki, k := range []int{16, 17, 20, 40} {
+			m := modes[(ai+ki)%len(modes)]
+			c18Case(e, fmt.Sprintf("%s & %s", a, chain(k, ai)), univ, m.batch, m.B)
+			c18Case(e, fmt.Sprintf("%s & %s", chain(k, ai), a), univ, m.batch, m.B)
+			if k == 20 {
+				c18Case(e, fmt.Sprintf("%s & %s & %s", chain(k/2, ai), a, chain(k/2, ai+1)), univ, m.batch, m.B)
+				c18Case(e, fmt.Sprintf("%s & %s & %s", a, chain(k, ai), atoms[(ai+1)%len(atoms)]), univ, m.batch, m.B)
+			}
+		}
+	}
 	e.m.Exhaustive = c.thorough()
 	return e.flush()
 }
